@@ -521,6 +521,10 @@ func runWSP(t evid.TB, pl *plan) *result {
 	x.dsc = newScanner(x.data, 1, e.sentinelBytes) // message 0 answered JOIN
 	e.se = x
 	e.tg = &target{in: sched.New(grace)}
+	if pl.Backlog == nil {
+		e.tg.conv = newConvWatch(st, &e.pushed)
+		defer e.tg.conv.forget()
+	}
 	addrs := []string{x.ctl.localAddr(), x.data.localAddr()}
 	register(e.tg, true, addrs...)
 	defer unregister(e.tg, addrs...)
@@ -568,6 +572,10 @@ func runWSP(t evid.TB, pl *plan) *result {
 	if res.v == nil {
 		res.v = v
 	}
+	if res.v == nil {
+		res.v = e.checkPublished()
+	}
+	res.convHeld = atomic.LoadInt64(&e.tg.convHeld)
 	if res.v == nil && !res.complete {
 		res.v = &verdict{"drain", fmt.Sprintf("sentinel seen=%v, control messages %d for %d requests within %v (frames reaching the write point %d, written %d, published on subscribed channels %d)", x.sentinelSeen(), x.ctl.count()-1, e.exp.requests(), ioBound, atomic.LoadInt64(&e.tg.arrived), atomic.LoadInt64(&e.tg.passed), e.pubCount)}
 	}
